@@ -361,6 +361,9 @@ structure Facts where
   recreateKeepsPointer : Tri
   /-- PatchTreasures is outside the request universe of `Holds`; the fact feeds the model of the correspondence run -/
   patchAsksFirst : Tri
+  /-- the float setters compare bit patterns (no: with `==`; a narrow deviation the driver reproduces, outside `Holds`'s
+      arithmetic-free model of "same value") -/
+  fltSetBitwise : Tri
   saveReleasesImmediate : Tri
   /-- replies show every non-zero ExpiredAt (environment of the run, see `Arith.expNe0`; not part of
       the refinement statement, which holds for either value) -/
@@ -372,7 +375,7 @@ def hasUnknown (f : Facts) : Bool :=
   f.voidClears == .unknown || f.pushChecksType == .unknown || f.setSliceReplaces == .unknown ||
   f.u32delReleases == .unknown || f.u32delChecksType == .unknown || f.incFailClean == .unknown ||
   f.noEmptyLive == .unknown || f.arekAllFalse == .unknown || f.countMissingOk == .unknown ||
-  f.setErrSingle == .unknown || f.fltCondDirect == .unknown || f.keyChecked == .unknown || f.recreateKeepsPointer == .unknown || f.patchAsksFirst == .unknown ||
+  f.setErrSingle == .unknown || f.fltCondDirect == .unknown || f.keyChecked == .unknown || f.recreateKeepsPointer == .unknown || f.patchAsksFirst == .unknown || f.fltSetBitwise == .unknown ||
   f.saveReleasesImmediate == .unknown || f.wireExpNe0 == .unknown
 
 /-- the storage encoding does not occur in any request handler (it matters for C05 only) -/
